@@ -114,6 +114,11 @@ structure Store where
   journal : List JEntry
   /-- newest first -/
   vlog : List VEntry
+  /-- the Space row's `schema_environment_version` -/
+  envVersion : Nat := 1
+  /-- `schema_envs`: one row per activation, `(sequence its transaction produced, version)`, newest
+  first; the first activation of a fresh Space takes no sequence (coordinate 0) -/
+  envs : List (Nat × Nat) := [(0, 1)]
 
 def Store.init : Store :=
   { elems := fun _ => none, next := fun _ => 1, seq := 0, journal := [], vlog := [] }
@@ -678,6 +683,29 @@ def exec (s : Store) (stmt : Stmt) : Store × Outcome :=
 def run (s : Store) : List Stmt → Store
   | [] => s
   | st :: r => run (exec s st).1 r
+
+/-- `Store::activate_schema` (not the first one of a Space): one Space sequence, the next
+environment version, one `schema_envs` row carrying that sequence -/
+def activate (s : Store) : Store :=
+  { s with seq := s.seq + 1, envVersion := s.envVersion + 1, envs := (s.seq + 1, s.envVersion + 1) :: s.envs }
+
+/-- `Store::schema_version_at`: the greatest version among the activations at or before the coordinate -/
+def schemaVersionAt (envs : List (Nat × Nat)) (c : Nat) : Nat :=
+  envs.foldl (fun acc e => if e.1 ≤ c ∧ e.2 > acc then e.2 else acc) 0
+
+/-- what happens to a Space: statements and schema activations -/
+inductive Ev where
+  | stmt (st : Stmt)
+  | activate
+  deriving Repr
+
+def stepE (s : Store) : Ev → Store
+  | .stmt st => (exec s st).1
+  | .activate => activate s
+
+def runE (s : Store) : List Ev → Store
+  | [] => s
+  | e :: r => runE (stepE s e) r
 
 /-! ## Observation -/
 
